@@ -16,6 +16,7 @@ import GoDebian.Lemmas.Res
 import GoDebian.Lemmas.DocsValue
 import GoDebian.Lemmas.DocsStruct
 import GoDebian.Lemmas.CodecRecord
+import GoDebian.Lemmas.DocsRead
 
 namespace GoDebian.Props.C10
 open GoDebian GoDebian.Deb822 GoDebian.Codec GoDebian.Extracted.Schemas
@@ -279,5 +280,61 @@ example :
       ⟨"Version", "Version", "cust:Version", "", "", true, false⟩ ∈ fs →
       ∃ e, decodeStruct p s [] = .error e :=
   fun fs s _ hs hmem => C10_required_missing fs s _ hs _ hmem rfl rfl (by decide +kernel) (by decide +kernel)
+
+/-! ### Stage 4 — from the text: composition with the reader (C07) -/
+
+/-- `Unmarshal` of the text: a well-formed one-paragraph deb822 document (`Spec.Deb822.wfPara`),
+    rendered in any physical layout C07 covers (LF / CRLF, comments, padding after the colon,
+    trailing blanks, blank or tab continuation markers, empty lines around, with or without
+    the final newline), whose paragraph (`expectedPara`: every field's value as the reader
+    returns it) carries the model, unmarshals to the record of the model's views. -/
+theorem C10_unmarshal_rendered (spec : List Req) (fs : List Field) (s : Schema) (m : DocModel)
+    (para : Spec.Deb822.Para) (cs : Spec.Deb822.Choices)
+    (hok : schemaOK spec (some fs) = true) (hfits : docFits spec (some fs) = true)
+    (hs : toSchema fs = some s) (hm : wfModel spec m)
+    (hreq : ∀ f ∈ fs, f.required = true → (m f.key).isSome = true)
+    (hwf : Spec.Deb822.wfPara para = true)
+    (hp : Carries spec fs m (Spec.Deb822.expectedPara para)) :
+    unmarshal s (Spec.Deb822.render [para] cs) =
+      .ok (fs.map (fieldVal spec m (Spec.Deb822.expectedPara para))) := by
+  rw [Lemmas.Docs.unmarshal_render s para cs hwf]
+  exact C10_decode_document spec fs s m _ hok hfits hs hm hreq hp
+
+/-- The .dsc of Stage 3 as a deb822 document: its fields are the model's values in the
+    model's layouts (`fieldOf`; the relationship field, folded after the comma, is given by
+    its two lines), plus the field the struct does not know. -/
+def dscFields : Spec.Deb822.Para :=
+  let B := Bytes.ofString
+  let of (k : String) : List Spec.Deb822.Field :=
+    match dscModel k with
+    | some (v, l) => [fieldOf (B k) v l]
+    | none => []
+  of "Source" ++ of "Binary" ++ of "Architecture" ++ of "Version" ++
+    [⟨B "Build-Depends", B "debhelper (>= 9),", [B "gettext"]⟩,
+     ⟨B "X-Extra", B "kept in the embedded Paragraph", []⟩] ++ of "Files"
+
+/-- it is well-formed, denotes the paragraph of Stage 3, and this is its plainest layout -/
+theorem dsc_fields_ok :
+    Spec.Deb822.wfPara dscFields = true ∧ Spec.Deb822.expectedPara dscFields = dscParagraph ∧
+    Spec.Deb822.render [dscFields] [] = Bytes.ofString
+      ("Source: hello\nBinary:\n hello,\n hello-dev\nArchitecture: any\nVersion: 1:2.10-1\n" ++
+       "Build-Depends: debhelper (>= 9),\n gettext\nX-Extra: kept in the embedded Paragraph\n" ++
+       "Files:\n d41d8cd9 1204 hello_2.10-1.dsc\n 900150983c 725946 hello_2.10.orig.tar.gz\n") := by
+  decide +kernel
+
+/-- … so that text, and every other layout of it, unmarshals into the DSC struct as
+    regenerated from the Go source -/
+example (fs : List Field) (s : Schema) (h : schema_control_DSC = some fs)
+    (hs : toSchema fs = some s) (cs : Spec.Deb822.Choices) :
+    unmarshal s (Spec.Deb822.render [dscFields] cs) =
+      .ok (fs.map (fieldVal dsc dscModel dscParagraph)) := by
+  obtain ⟨hm, hc⟩ := dsc_sample_ok
+  obtain ⟨hwf, hpara, _⟩ := dsc_fields_ok
+  rw [h] at hc
+  rcases hc with hc | ⟨hp, hreq⟩
+  · cases hc
+  · rw [← hpara] at hp ⊢
+    exact C10_unmarshal_rendered dsc fs s dscModel dscFields cs (h ▸ Tie.Docs.schema_DSC)
+      (h ▸ C10_fits_DSC) hs (Lemmas.Docs.wfModel_of_B hm) hreq hwf hp
 
 end GoDebian.Props.C10
